@@ -50,3 +50,26 @@ func Harness_C10L2_records_unions() {
 	verifAssert(q_tuple(a, s, xs) == want, "3-tuple holding a slice")
 	verifCover("end")
 }
+
+// operands that share a backing array: PopLast / Tail return windows of
+// their argument, so both sides of = alias each other
+func Harness_C10L2_aliased() {
+	xs := symInts("xs", maxLenEnv()+1)
+	verifAssume(len(xs) > 0)
+	n := verifInt("n")
+	verifAssume(0 <= n)
+	verifAssume(n <= len(xs))
+	var got, got2 bool
+	p, msg := tryRun(func() { got = q_poplast_vs_self(xs); got2 = q_poplast_neq_self(xs) })
+	verifAssert(!p, "= does not panic: "+msg)
+	verifAssert(!got, "PopLast xs = xs is false for a non-empty xs")
+	verifAssert(got2, "PopLast xs <> xs is true for a non-empty xs")
+	verifAssert(q_tail_vs_self(xs) == sameInts(xs[1:], xs), "Tail xs = xs")
+	t := q_poplast_vs_take(xs, n)
+	verifAssert(t.E0 == sameInts(xs[:len(xs)-1], xs[:n]), "PopLast xs = Take n xs")
+	verifAssert(!t.E1, "PopLast xs = xs (second use of the same value)")
+	if len(xs) >= 2 {
+		verifAssert(q_tail_poplast(xs), "Tail (PopLast xs) = PopLast (Tail xs)")
+	}
+	verifCover("end")
+}
